@@ -314,3 +314,24 @@ Section Links.
     && forallb (fun t => list_string_eqb (map n_name (filter (fun n => n_tag n =? t) pool)) (names_under t m))
                (map fst m ++ map n_tag pool).
 End Links.
+
+(* ------------------------------------------------------------------------------------------ *)
+(* Several groups in one configuration.  A group section is a list of items (filter lines with   *)
+(* their optional annotation, policy settings; other keys are outside this property).  Each     *)
+(* declared group means what ITS OWN items say: its filter lines in order, annotation j         *)
+(* attached to line j, the last policy setting; nothing of any other group.                     *)
+(* ------------------------------------------------------------------------------------------ *)
+Inductive group_item := IFilter (l : line) (a : annotation) | IPolicy (r : policy_raw).
+
+Record group_decl := mkGroup {
+  g_name : string; g_filter : list line; g_anno : list annotation; g_policy : option policy_raw }.
+
+Definition filters_of (items : list group_item) : list line :=
+  flat_map (fun it => match it with IFilter l _ => [l] | IPolicy _ => [] end) items.
+Definition annos_of (items : list group_item) : list annotation :=
+  flat_map (fun it => match it with IFilter _ a => [a] | IPolicy _ => [] end) items.
+Definition policy_of (items : list group_item) : option policy_raw :=
+  fold_left (fun acc it => match it with IPolicy r => Some r | IFilter _ _ => acc end) items None.
+
+Definition spec_group_decl (s : string * list group_item) : group_decl :=
+  mkGroup (fst s) (filters_of (snd s)) (annos_of (snd s)) (policy_of (snd s)).
